@@ -166,7 +166,6 @@ PIPELINES = {
     },
     "pem": {
         "variants": ["ring", "awslc"],
-        "thorough_only_variants": ["awslc"],
         "mc": [{"module": "MC_Pem", "workers": 4, "emits": False}],
         "drivers": [{"name": "all", "cmd": ["pem", "{out}", "{tier}"], "chunk": 100000, "require_cov": ["pemResidues=TRUE"]}],
         "min_events": 300,
@@ -232,7 +231,7 @@ PROPS = {
               ops=["KeyLoad", "KeyGen", "AlgTable"], exhaustive=True),
     "C14": _p("model_checking", ["pem", "cli"], ["C14."],
               "certificate / CSR / CRL for common-name lengths 0..149 (every residue of the DER length modulo 48 is required by a coverage predicate evaluated by TLC) x algorithms (Ed25519 over the full span, P-256/P-384/RSA-2048 sampled, multi-kilobyte RSA certificates with 40 SANs), private and public key PEM per algorithm, the private-key PEM of every key origin (OpenSSL PKCS#8 v1, SEC1, PKCS#1, rcgen-generated) offered to each of rcgen's three PEM loaders, remote keys (no DER accessor, hence no text); the four files of every run of the command line tool over MC_Cli.Cases (strict RFC 7468 shape, also when written over longer files of an earlier run); distinct by (kind, algorithm, DER length)",
-              ops=["Pem", "CliRun"], exhaustive=False),
+              ops=["Pem", "PemContent", "CliRun"], exhaustive=False),
     "C15": _p("model_checking", ["purity", "sessions"], ["C15."],
               "MC_Purity: every interleaving of 3 threads x 2 generation calls over 19 templates (exhaustive, history hidden by a VIEW); sessions = TLC -simulate behaviours of the same module (4 threads x 6 calls interleaved with interfering calls: DN edits, key loads, failing parses, CSR parsing, the same key under other key-identifier methods, unrelated generations, CA import) replayed call by call; 19 generation templates (certificate self-signed / issued, CSR, CRL; rich names, 6 EKUs, name constraints, custom extensions; issuers that differ from each other in exactly one component: same key under two names, same name under two keys, one name under two RSA keys of one size; empty key identifier; auto-detected RSA-3072) on shared keys and issuers, each output's signature verified under the key the call was given; a hot phase of 8 threads x 2 400 generations alternating between those issuers; threads sharing Arc'd key and issuer; fresh processes (different hash-map seeds) sharing the same key files; distinct by (template, back end, process, thread, phase)",
               ops=["Gen"], exhaustive=False),
